@@ -1002,6 +1002,10 @@ func run(c *h.Check) {
 		for _, m := range durableCases() {
 			c.Violate("durable", m, m, map[string]any{"durable": true})
 		}
+		c.Count("evaluations", 3)
+		for _, m := range deadlineCases() {
+			c.Violate("deadline", stripDigitsAll(m), m, map[string]any{"deadline": true})
+		}
 	}
 	for i, lr := range longRuns() {
 		if !c.Mine(i + 1) {
@@ -1080,6 +1084,7 @@ func replay(c *h.Check, rf *h.ReplayFile) []vrt.Violation {
 		Durable  bool     `json:"durable"`
 		CtxHist  *ctxHist `json:"ctxhist"`
 		LongRun  *longRun `json:"longrun"`
+		Deadline bool     `json:"deadline"`
 	}
 	json.Unmarshal(rf.Ops, &ops)
 	if ops.Sequence {
@@ -1090,6 +1095,11 @@ func replay(c *h.Check, rf *h.ReplayFile) []vrt.Violation {
 	if ops.Durable {
 		for _, m := range durableCases() {
 			vs = append(vs, vrt.Violation{Kind: "durable", Sig: m, Detail: m})
+		}
+	}
+	if ops.Deadline {
+		for _, m := range deadlineCases() {
+			vs = append(vs, vrt.Violation{Kind: "deadline", Sig: stripDigitsAll(m), Detail: m})
 		}
 	}
 	if ops.LongRun != nil {
